@@ -175,6 +175,24 @@ def oracle_c05(obs, part, replay):
                 part.count('revisits_as_expected')
     if obs.get('leftover_tmp'):
         part.count('leftover_temp_files', len(obs['leftover_tmp']))
+    # FTP sessions: one control-conversation (metadata) record per session and, for completed transfers, one
+    # resource record whose block is exactly the transferred bytes and which names the conversation as concurrent
+    for f in obs.get('ftp') or []:
+        recs = [r for rs in files.values() for r in rs if r['fmap'].get('warc-target-uri', [None])[0] == f['url']]
+        meta = [r for r in recs if r['type'] == 'metadata']
+        res = [r for r in recs if r['type'] == 'resource']
+        part.count('ftp_sessions_recorded')
+        if f['error'] is None:
+            if len(meta) != 1 or len(res) != 1:
+                part.violation('ftp-record-count', {'url': f['url'], 'metadata': len(meta), 'resource': len(res)}, replay)
+                continue
+            if res[0]['block'] != f['data']:
+                part.violation('ftp-resource-block-differs', {'url': f['url'], 'block_len': len(res[0]['block']),
+                                                              'data_len': len(f['data'])}, replay)
+            elif res[0]['fmap'].get('warc-concurrent-to', [None])[0] != meta[0]['id']:
+                part.violation('ftp-resource-not-concurrent-to-conversation', {'url': f['url']}, replay)
+            else:
+                part.count('ftp_resource_blocks_equal_data')
 
 
 def classify_header_problem(p):
